@@ -1,11 +1,16 @@
 SPECIFICATION Spec
 CONSTANTS
-  N = 3
+  N = 4
   T = 3
   Dims <- D_none
   Scale <- S_none
   Fixes = {"F1","F2","F3","F4","F7","F9"}
-  Check = {"C01","C03","C04","C05","C06","C11","C20","REF"}
-INVARIANT Inv
-POSTCONDITION Post
+  Depth = 6
+  MaxId = 8
+  Hist = FALSE
+  Kinds = {1,2,3,4,5,6}
+  EmitCat = TRUE
+CONSTRAINT Bound
+VIEW View
+INVARIANT Emit
 CHECK_DEADLOCK FALSE
